@@ -27,7 +27,6 @@
 use mcx::panics::Caught;
 use mcx::report::{Ctx, Violation};
 use mcx::sweep::{self, ItemOut};
-use radicle::crypto::signature::Signer as _;
 use radicle::crypto::test::signer::MockSigner;
 use radicle::crypto::{PublicKey, Signature, Signer as _};
 use radicle::git::{Oid, RefString};
@@ -36,7 +35,7 @@ use radicle::identity::{Did, Project, RepoId};
 use radicle::node::device::Device;
 use radicle::storage::git::Repository;
 use radicle::storage::refs::{Refs, SignedRefs};
-use radicle::storage::{ReadRepository, SignRepository, WriteRepository};
+use radicle::storage::{SignRepository, WriteRepository};
 use radicle::Storage;
 use serde::{Deserialize, Serialize};
 use serde_json::{json, Value};
@@ -392,17 +391,13 @@ fn mutations_of(set: &SignedSet) -> Vec<Mutation> {
     v
 }
 
-fn kind(m: &Mutation) -> String {
+fn kind(m: &Mutation, n_lines: usize) -> String {
     match m {
-        Mutation::Resigned(inner) => format!("resigned-{}", kind(inner)),
+        Mutation::Resigned(inner) => format!("resigned-{}", kind(inner, n_lines)),
         Mutation::Lines(order) => {
-            let mut sorted = order.clone();
-            sorted.sort();
-            sorted.dedup();
-            let n = order.iter().max().map(|x| x + 1).unwrap_or(0);
-            if sorted.len() < order.len() {
+            if order.len() > n_lines {
                 "line-duplicated".into()
-            } else if order.len() < n || order.is_empty() {
+            } else if order.len() < n_lines {
                 "line-deleted".into()
             } else {
                 "lines-reordered".into()
@@ -438,7 +433,8 @@ fn check_mutant(fx: &Fixture, si: usize, m: &Mutation) -> ItemOut {
         }
         text => blob = mutate_text(&set.blob, text),
     }
-    let k = kind(m);
+    let k = kind(m, lines_of(&set.blob).len());
+    let resigned = matches!(m, Mutation::Resigned(_));
     let mut vs = vec![];
     let cost = serde_json::to_string(m).map(|s| s.len()).unwrap_or(0) as u64 + 1000 * si as u64;
     let outcome = match load(fx, &blob, &sig, key) {
@@ -455,7 +451,8 @@ fn check_mutant(fx: &Fixture, si: usize, m: &Mutation) -> ItemOut {
                 vs.push(Violation::new(format!("C20/binding/wrong-key/{k}"), format!("set {} signed by {} is accepted under the claimed key {} ({k})", set.name, set.key, key), wit.clone()).cost(cost));
                 tags.push("wrong-key");
             }
-            if got != set.model {
+            // (b) for texts signed afresh by the real key the signer's statement is the new text; clause (c) judges those
+            if got != set.model && !resigned {
                 vs.push(Violation::new(format!("C20/binding/refs-differ-from-signed/{k}"), format!("set {}: accepted refs {:?} differ from the signed refs {:?} ({k})", set.name, got, set.model), wit.clone()).cost(cost));
                 tags.push("other-refs");
             }
@@ -469,11 +466,13 @@ fn check_mutant(fx: &Fixture, si: usize, m: &Mutation) -> ItemOut {
                 vs.push(Violation::new(format!("C20/binding/signature-not-over-accepted-refs/{k}"), format!("set {}: accepted, but the stored signature does not verify over the canonical text of the accepted refs ({k}; signer signed {:?})", set.name, String::from_utf8_lossy(&signed_text).chars().take(200).collect::<String>()), wit.clone()).cost(cost));
                 tags.push("sig-not-over-canonical");
             }
-            if acc.signature.as_ref() != &set.sig[..] && !matches!(m, Mutation::Resigned(_)) {
+            if acc.signature.as_ref() != &set.sig[..] && !resigned {
                 vs.push(Violation::new(format!("C20/binding/mutated-signature-accepted/{k}"), format!("set {}: a modified signature is accepted ({k})", set.name), wit.clone()).cost(cost));
                 tags.push("other-sig");
             }
-            if tags.is_empty() {
+            if tags.is_empty() && resigned {
+                format!("{k}:accepted:new-text-is-canonical-for-{}", if got == set.model { "the-same-set" } else { "another-set" })
+            } else if tags.is_empty() {
                 format!("{k}:accepted:same-refs-same-key{}", if blob == set.blob { "" } else { "(text differs, parses to the same set)" })
             } else {
                 format!("{k}:accepted:{}", tags.join("+"))
